@@ -71,6 +71,7 @@ def template(v):
     return int(s) if v["t"] == "int" else s
 
 
+NODE_KINDS = ("seq", "src", "srcf", "split")
 MF_KINDS = ("mf", "mfd", "mfe")
 MF_FIELD = {"mf": "filename", "mfd": "dirname", "mfe": "fileext"}
 
@@ -91,8 +92,8 @@ def sig(els, i=None):
     if k in ("mf", "mfd", "mfe", "write", "cache"):
         return "%s(%s)" % ({"mf": "MF", "mfd": "MFdir", "mfe": "MFext", "write": "Write", "cache": "Cache"}[k],
                            template(e["v"]))
-    if k in ("seq", "src", "split"):
-        name = {"seq": "Seq", "src": "Src", "split": "Split"}[k]
+    if k in NODE_KINDS:
+        name = {"seq": "Seq", "src": "Src", "srcf": "SrcF", "split": "Split"}[k]
         return "%s(%s)" % (name, ",".join(sig(els, c) for c in e["ch"]))
     return {"store": "Store", "ucfs": "UCFS", "data": "data", "acc": "Sum"}[k]
 
@@ -118,13 +119,15 @@ def ident(val):
 BARE_BRANCH = ("data", "ucfs", "mf", "mfd", "mfe")
 
 
-def build(els, tuples=False):
+def build(els, tuples=False, peek=0):
     """Construct the real objects; objs[i-1] is the object of id i.
 
     tuples=True selects the alternative spellings of the same tree: a Sequence branch of a Split is
     given as a tuple (Split makes the Sequence), a one-element branch as the bare element (Split
     wraps it), and the callable of a Source comes after its leading SetContext / StoreContext
-    elements (Source(SetContext(..), callable, ...))."""
+    elements (Source(SetContext(..), callable, ...)).
+    peek = id of a node whose _get_context() is requested right after it is built (before it is
+    placed in its parent); the request must not change anything."""
     import lena.core
     import lena.flow
     import lena.math
@@ -174,6 +177,9 @@ def build(els, tuples=False):
                 while lead < len(ch) and els[e["ch"][lead] - 1]["k"] in ("set", "store"):
                     lead += 1
             o = lena.core.Source(*(ch[:lead] + [two_values] + ch[lead:]))
+        elif k == "srcf":
+            # the flow comes from the first data element (a Source or a Split of Sources)
+            o = lena.core.Source(*[objs[c - 1] for c in e["ch"]])
         elif k == "split":
             o = lena.core.Split([objs[c - 1] for c in e["ch"]])
             if tuples:
@@ -182,6 +188,11 @@ def build(els, tuples=False):
                     objs[c - 1] = real
         else:
             raise ValueError(k)
+        if n == peek and hasattr(o, "_get_context"):
+            try:
+                o._get_context()
+            except lena.core.LenaKeyError:
+                pass
         objs.append(o)
     return objs
 
@@ -208,7 +219,7 @@ def observe_element(kind, o):
     if kind == "cache":
         m = _CACHE_RE.match(repr(o))
         return {"name": m.group(1) if m else "<unparsed repr>"}
-    if kind in ("seq", "src", "split"):
+    if kind in NODE_KINDS:
         if isinstance(o, tuple) or not hasattr(o, "_get_context"):
             return {"skip": True}
         try:
@@ -225,7 +236,7 @@ def run_root(els, objs):
     (0, {"rt": 0}), (0, {"rt": 1})."""
     import lena.flow
     root = objs[-1]
-    if els[-1]["k"] == "src":
+    if els[-1]["k"] in ("src", "srcf"):
         out = list(root())
     else:
         out = list(root.run(two_values()))
@@ -335,7 +346,7 @@ def compare(els, exp, obs, rt):
                     if o["name"] in late:
                         what = "of-later-position"
                     bad.append((k, "name-" + what, pk, i, want, o["name"]))
-        elif k in ("seq", "src", "split"):
+        elif k in NODE_KINDS:
             if x["ok"]:
                 want = prune(dec(x["ctx"]))
                 if not o["ok"]:
@@ -414,7 +425,7 @@ def record(els, obs, rt, stable=True):
                 if o["name"] is not None:
                     row["name"] = list(o["name"]) if k in MF_KINDS else _name_tokens(o["name"])
                     row["noname"] = False
-            elif k in ("seq", "src", "split"):
+            elif k in NODE_KINDS:
                 row["ok"] = o["ok"]
                 if o["ok"]:
                     row["ctx"] = enc(o["ctx"])
